@@ -78,3 +78,16 @@ Theorem C05_rejected_blocks_change_nothing : forall c st s bl vec,
   model_step_blocks c st (bl, vec) = st /\ spec_step_blocks c s (bl, vec) = s.
 Proof. exact rejected_blocks_change_nothing. Qed.
 Print Assumptions C05_rejected_blocks_change_nothing.
+
+(* ---- histories.  Any history of public API calls (rf_write / rf_write_blocks in any mix, any mode,
+   any arguments) behaves exactly like the same history with the refused calls (ValueError / IOError)
+   taken out: the same final writer state -- files, cursor, counters -- and the same answer to every
+   remaining call.  "Later valid writes behave as if the rejected call had never been made." *)
+From DRF Require Import Model.PyWriter Proofs.PyApiHistory.
+
+Theorem C05_refused_calls_leave_no_trace : forall c ops ps,
+  fold_left (api_state c) (drop_refused c ps ops) ps = fold_left (api_state c) ops ps /\
+  answers c ps (drop_refused c ps ops) =
+    filter (fun r => negb ((fst r =? ValueError) || (fst r =? IOError))) (answers c ps ops).
+Proof. exact refused_calls_leave_no_trace. Qed.
+Print Assumptions C05_refused_calls_leave_no_trace.
